@@ -640,3 +640,7 @@ func (w *World) paramInvsFor(fn *ssa.Function, i int) []*Clause {
 	}
 	return out
 }
+
+func (w *World) inRepoPkg(p *ssa.Package) bool {
+	return p != nil && p.Pkg != nil && strings.HasPrefix(p.Pkg.Path(), repoMod)
+}
